@@ -158,6 +158,13 @@ fn job_roundtrip(job: &Value) -> Value {
             }
         }
         res.insert("dump_equal".into(), json!(dump_equal));
+        // "builds a scanner with identical behaviour" whichever way it is built: through the cache (build()) and by
+        // the owned conversion (Scanner::try_from), the re-read configuration compiles to the same automata
+        let (s2c, _, _) = crate::build(&reread, true);
+        let owned = catch_unwind(AssertUnwindSafe(|| scnr::Scanner::try_from(reread.clone()).ok())).ok().flatten();
+        let same = |s: &Option<scnr::Scanner>| s.as_ref().map(|s| crate::dump_to_json(&scnr::verif::dump(s)) == d1).unwrap_or(false);
+        let reproducible = res.get("dump_reproducible").and_then(|b| b.as_bool()).unwrap_or(true);
+        res.insert("other_build_paths_equal".into(), json!(!reproducible || (same(&s2c) && same(&owned))));
         res.insert(
             "dump_states".into(),
             json!(d1["modes"].as_array().map(|a| a.iter().map(|m| m["dfa"]["states"].as_array().map(|s| s.len()).unwrap_or(0)).sum::<usize>()).unwrap_or(0)),
